@@ -8,7 +8,7 @@ RULE = ('card numbers of length 10..40 (and shorter ones for the correspondence)
         'elements (PAN lengths 10..19 and longer), searching every string of the returned dictionary for the clear PAN; '
         'non-trivial = distinct case with a PAN of at least 11 characters')
 CODEC_ALIASES = True     # one implementation run in three is given an alias spelling of the codec name (worker.for_impl)
-CALL_VARIANTS = True     # bytearray / memoryview messages and earlier failing calls around the harness's loads / dumps calls (worker.install_call_variants)
+CALL_VARIANTS = True     # bytearray messages, positional arguments and earlier failing calls around the harness's loads / dumps calls (worker.install_call_variants)
 EXHAUSTIVE = {}
 ASSUMPTIONS = ['exceptions carry the raw message bytes as context data: not part of the returned dictionary',
                'numbers shorter than 10 characters are outside the stated domain']
